@@ -1633,6 +1633,17 @@ def fn_signature(f):
     return [f.locals[i]['ty'] for i in range(0, f.argc + 1)]
 
 
+def _local_callees(P, f):
+    out = set()
+    for blk in f.blocks:
+        t = blk['t']
+        if t['k'] == 'call':
+            c = strip_generics(t['res']) if t.get('res') else (strip_generics(t['callee']) if t.get('callee') else None)
+            if c:
+                out.add(c)
+    return out
+
+
 def apply_renames(P, base):
     """A function of the pinned tree that no longer exists while exactly one NEW function with the same parent path and the
     same signature appeared is treated as renamed: the new function answers to the old key (rules anchor on pinned names).
@@ -1648,8 +1659,12 @@ def apply_renames(P, base):
     for k in missing:
         cs = [f for f in new if parent(f.key) == parent(k) and fn_signature(f) == base[k]]
         if not cs:
-            # second tier: same argument types, the return type was changed along with the name (Result<T, ()> -> Option<T> ...)
-            cs = [f for f in new if parent(f.key) == parent(k) and fn_signature(f)[1:] == base[k][1:] and len(base[k]) > 1]
+            # second tier: same argument types, the return type was changed along with the name (Result<T, ()> -> Option<T> ...) —
+            # only if the candidate still calls every pinned function the old one called (otherwise it is a new helper that took
+            # over a *part* of the old body, and the rest went to the caller)
+            old_callees = {c for c, callers in getattr(P, 'baseline_callers', {}).items() if k in callers and c in P.fns}
+            cs = [f for f in new if parent(f.key) == parent(k) and fn_signature(f)[1:] == base[k][1:] and len(base[k]) > 1
+                  and old_callees <= _local_callees(P, f)]
         if len(cs) == 1:
             cand[k] = cs[0]
     # one-to-one only
@@ -1710,7 +1725,7 @@ def _reset_fn(f):
             f._names.setdefault(d['p']['l'], d['n'])
 
 
-def _devirtualize(P, f):
+def _devirtualize(P, f, only_if_new=True):
     """calls through the Fn* traits whose callee value is a known function item or closure (typically a callback handed to
     an inlined helper) become direct calls; returns the number of rewritten sites"""
     n = 0
@@ -1721,9 +1736,16 @@ def _devirtualize(P, f):
         if strip_generics(t.get('callee') or '') not in FN_TRAIT_CALLS:
             continue
         r = strip_generics(t['res']) if t.get('res') else None
+        tree = None
         if r and r in P.fns and r not in FN_TRAIT_CALLS:
-            continue   # rustc resolved it already
-        tree = peel(f.expr_operand(t['args'][0], b, 'T'))
+            g0 = P.fns[r]
+            # rustc resolved it already; a closure defined in this very function and called directly (`let check = |x| ..; check(a)`)
+            # is spliced in as well, so that the analysed body does not depend on whether the expression was named
+            if not (g0.kind == 'closure' and (g0.root == f.key or g0.parent == f.key)):
+                continue
+            tree = ('agg', 'closure:' + r, (), ())
+        if tree is None:
+            tree = peel(f.expr_operand(t['args'][0], b, 'T'))
         target = None
         env = []
         if tree[0] == 'fnitem' and tree[1] in P.fns:
@@ -1764,10 +1786,14 @@ def inline_new_helpers(P, baseline, max_depth=4, max_blocks=120):
     with a known target into direct calls (closures given to an inlined helper are inlined as well);
     returns list of (caller, callee)"""
     done = []
+    closures_by_parent = defaultdict(list)
+    for g in P.fn_list:
+        if g.kind == 'closure' and g.parent:
+            closures_by_parent[g.parent].append(g)
     for f in list(P.fn_list):
         if f.kind == 'promoted':
             continue
-        touched = False
+        touched = bool(_devirtualize(P, f)) if any(g.kind == 'closure' and (g.parent == f.key) for g in closures_by_parent.get(f.key, ())) else False
         for _ in range(max_depth):
             sites = []
             for b in range(len(f.blocks)):
@@ -1816,7 +1842,20 @@ def inline_new_helpers(P, baseline, max_depth=4, max_blocks=120):
             if f.key not in inl:
                 refs(f.blocks)
         # references from other inlined helpers only count if those stay
-        gone = {k for k in inl if k not in still and P.fns[k].vis != 'pub' and P.fns[k].kind != 'closure'}
+        # (closures: only those that were called directly and spliced — their aggregate is dead afterwards)
+        gone = {k for k in inl if k not in still and k in P.fns and (P.fns[k].vis != 'pub' or P.fns[k].kind == 'closure')}
+        # a closure that is also handed to someone as a value (`.is_some_and(is_due)`) stays
+        for k in sorted(gone):
+            g = P.fns[k]
+            if g.kind != 'closure':
+                continue
+            tag = 'closure@%s:%s:' % (g.file, g.line)
+            par = P.fns.get(g.parent) if g.parent else None
+            for h in ([par] if par else []):
+                for blk in h.blocks:
+                    t = blk['t']
+                    if t['k'] == 'call' and tag in (t.get('sig') or '') + (t.get('fty') or '') + ' '.join(t.get('argtys') or []):
+                        gone.discard(k)
         if gone:
             P.fn_list = [f for f in P.fn_list if f.key not in gone]
             for k in gone:
